@@ -6,7 +6,7 @@ ROWS = "ABCDEFGHIJKLMNOPQRSTUVWXYZ"
 BOUNDS = {
     "quick": "(a) evotools/fluenttools.get_well_position on real Labware/Trough objects with the well id a symbolic character vector of every length 0..4 "
              "(characters 32..255), geometries plate 3x12, 9x2, 26x1, 1x1 and trough 9 virtual rows x 2 columns, 1x1; (b) aspirate/dispense with the symbolic id "
-             "(labware index wrapped in a symbolic-aware mapping) on plate 3x2 / trough 3x2, both devices; (c) structural agreement of wells / indices / positions / "
+             "(labware index wrapped in a symbolic-aware mapping) on plate 3x2 / trough 3x2 (and plate 2x11 for ids of length 4), both devices; (c) structural agreement of wells / indices / positions / "
              "make_well_array / make_well_index_dict and both numbering helpers for EVERY well of every plate rows 1..26 x columns {1,2,9,10,12,24,99,120} and every "
              "trough virtual_rows {1,2,8,26} x columns {1,2,12,24} (concrete execution, not solver-decided)",
     "thorough": "(a) id length 0..5, additional geometries plate 16x24, 8x12, trough 26x24, 8x12; (b) plate 8x12",
@@ -30,6 +30,10 @@ def shards(tier):
             for op in ("aspirate", "dispense"):
                 for L in (2, 3, 4):
                     out.append(dict(part="op", geo=g, dev=dev, op=op, L=L))
+    # ids one character longer than a canonical id on a plate with two-digit columns ('A010' must not be taken for 'A01' or 'A10')
+    for dev in ("evo", "fluent"):
+        for op in ("aspirate", "dispense"):
+            out.append(dict(part="op", geo=("plate", 2, 11), dev=dev, op=op, L=4))
     for cols in (1, 2, 9, 10, 12, 24, 99, 120):
         out.append(dict(part="tables", kind="plate", cols=cols, concrete=True))
     for cols in (1, 2, 12, 24):
